@@ -477,6 +477,7 @@ impl SubRule {
         let mut index = 0;
         while index < match_min {
             #[cfg(feature = "verif")] crate::verif::tick(110);
+            let rep_start = *pos;
             if !self.match_opt_states(opt_states, word, pos, forwards)? {
                 *pos = back_pos;
                 *self.alphas.borrow_mut() = back_alphas;
@@ -484,6 +485,10 @@ impl SubRule {
                 return Ok(false)
             }
             index += 1;
+            if *pos == rep_start {
+                // a repetition that consumed nothing (`(#,5:)`) matches as many more times as are asked for
+                index = match_min;
+            }
         }
 
         *state_index +=1;
